@@ -68,5 +68,9 @@ def rule_file(rng, q, eol=None, blank_lines=True):
     hl, meta = header(rng, eol)
     ql = wrap_query(rng, q, eol)
     parts = hl + ([""] if blank_lines and rng.random() < 0.6 else []) + ql
+    if rng.random() < 0.25:
+        # mixed line endings (a file edited on two platforms, or a header pasted in): every line its own ending
+        text = "".join(p + rng.choice(["\n", "\r\n"]) for p in parts[:-1]) + parts[-1] + (rng.choice(["\n", "\r\n"]) if rng.random() < 0.7 else "")
+        return text, meta
     text = eol.join(parts) + (eol if rng.random() < 0.7 else "")
     return text, meta
